@@ -8,7 +8,7 @@
     that the accepted calls are exactly those of the change of the latest valid
     content (one OnCreated / OnUpdated / OnDeleted, or none) and that no other
     source is touched.  [active_of] is what the accepted calls leave loaded. *)
-From HV Require Import Base.Prelude C18.Model C18.Spec C18.Proofs.
+From HV Require Import Base.Prelude C18.Model C18.ModelBlob C18.Spec C18.Proofs C18.ProofsBlob.
 
 (** ** What [trace_ok] means (any provider) *)
 
@@ -156,3 +156,63 @@ Theorem C18_fs_nonvacuous :
     {| p_kind := KDeleted; p_src := Sid 1; p_cid := None; p_ok := true |} ].
 Proof. exact fs_nonvacuous. Qed.
 Print Assumptions C18_fs_nonvacuous.
+
+(** ** Cloud blob *)
+
+(** all histories of polls (listings, single blobs, failures of every class) that
+    conform to the endpoints' configuration [md] ([None]: all blobs under the
+    prefix, [Some k]: the URL names blob [k]; listed keys distinct and below [nk]),
+    outside the guards of C18-F1 (a removal is reported, under the wrong source id;
+    not needed for the repaired provider), C18-F5 (a listing contains a blob that
+    cannot be loaded) and C18-F6 (the blob named by the URL is gone) *)
+Theorem C18_blob_all_histories : forall O,
+  (forall s, deletable O s = true) ->
+  forall nk fixed md h,
+  forallb (conforms nk md) h = true ->
+  fixed = true \/ blob_guard_F1 nk h = false ->
+  blob_guard_F5 (accepts O) h = false ->
+  blob_guard_F6 h = false ->
+  trace_ok (accepts O) (blob_trace O nk fixed h) = true.
+Proof. exact blob_trace_ok. Qed.
+Print Assumptions C18_blob_all_histories.
+
+Theorem C18_blob_stored_hash : forall O,
+  (forall s, deletable O s = true) ->
+  forall nk fixed md h b k,
+  forallb (conforms nk md) h = true ->
+  fixed = true \/ blob_guard_F1 nk h = false ->
+  blob_guard_F5 (accepts O) h = false ->
+  blob_guard_F6 h = false ->
+  fst (blob_run O fixed nk h) b k = latest_valid (accepts O) (seen_of (blob_trace O nk fixed h) (bkey b k)).
+Proof. exact blob_known_latest_valid. Qed.
+Print Assumptions C18_blob_stored_hash.
+
+(** C18-F1: the removed blob k1 stays active although the provider forgot it *)
+Theorem C18_blob_F1_refuted :
+  exists h, blob_guard_F1 2 h = true /\ blob_guard_F5 (accepts O_all) h = false /\ blob_guard_F6 h = false /\
+            forallb (conforms 2 (fun _ => None)) h = true /\
+            trace_ok (accepts O_all) (blob_trace O_all 2 false h) <> true /\
+            trace_ok (accepts O_all) (blob_trace O_all 2 true h) = true /\
+            active_of (blob_trace O_all 2 false h) (bkey 0 1) = Some 2 /\
+            fst (blob_run O_all false 2 h) 0 1 = None.
+Proof. exact blob_F1_refuted. Qed.
+Print Assumptions C18_blob_F1_refuted.
+
+(** C18-F5: k0 became invalid; k1's update and k2's removal are not applied *)
+Theorem C18_blob_F5_refuted :
+  exists h, blob_guard_F5 (accepts O_all) h = true /\ blob_guard_F6 h = false /\
+            forallb (conforms 3 (fun _ => None)) h = true /\
+            trace_ok (accepts O_all) (blob_trace O_all 3 true h) <> true /\
+            active_of (blob_trace O_all 3 true h) (bkey 0 1) = Some 2 /\
+            active_of (blob_trace O_all 3 true h) (bkey 0 2) = Some 3.
+Proof. exact blob_F5_refuted. Qed.
+Print Assumptions C18_blob_F5_refuted.
+
+(** C18-F6: the blob named by the URL was deleted; its rule set stays active *)
+Theorem C18_blob_F6_refuted :
+  exists h, blob_guard_F6 h = true /\ blob_guard_F5 (accepts O_all) h = false /\
+            forallb (conforms 1 (fun _ => Some 0)) h = true /\
+            trace_ok (accepts O_all) (blob_trace O_all 1 true h) <> true /\
+            active_of (blob_trace O_all 1 true h) (bkey 0 0) = Some 1.
+Proof. exact blob_F6_refuted. Qed.
+Print Assumptions C18_blob_F6_refuted.
